@@ -854,6 +854,12 @@ def cli_converters(ctx, rid, modname, floor):
                 body = [b_ for b_ in r[1].node.body if not (isinstance(b_, ast.Expr) and isinstance(b_.value, ast.Constant))]
                 if len(body) == 1 and isinstance(body[0], ast.Return) and len(r[1].params()) == 1:
                     tk = ast.Lambda(args=r[1].node.args, body=body[0].value)
+            if not ok and isinstance(tk, ast.Name):
+                # a name bound once, at module level or in this function, to a lambda: the converter is that lambda
+                binds = [a_.value for a_ in list(m.tree.body) + list(ast.walk(f.node)) if isinstance(a_, ast.Assign) and len(a_.targets) == 1
+                         and isinstance(a_.targets[0], ast.Name) and a_.targets[0].id == tk.id]
+                if len(binds) == 1 and isinstance(binds[0], ast.Lambda):
+                    tk = binds[0]
         if isinstance(tk, ast.Lambda) and len(tk.args.args) == 1:
             x = tk.args.args[0].arg
             b = tk.body
@@ -1655,3 +1661,70 @@ def loops_run_to_end(ctx, rid, fi, markers, what, floor=1):
                 found=f"{type(early[0]).__name__.lower()} at line {early[0].lineno} ends the loop: the remaining {what} are silently dropped" if early else "",
                 key_extra=fi.qualname + "loopend")
     return n
+
+
+def unset_optional_params(ctx, fi):
+    """Parameters of `fi` that have a constant default and that no call in the analysed packages supplies (neither by keyword nor by
+    position, and no call of that name spreads *args / **kwargs): inside the program they always hold their default.  An optional
+    parameter added for callers that do not exist yet therefore does not change what the tool does."""
+    a = fi.node.args
+    pos = [x.arg for x in a.posonlyargs + a.args]
+    defaults = dict(zip(pos[len(pos) - len(a.defaults):], a.defaults))
+    defaults.update({k.arg: d for k, d in zip(a.kwonlyargs, a.kw_defaults) if d is not None})
+    cands = {n: d.value for n, d in defaults.items() if isinstance(d, ast.Constant)}
+    if not cands:
+        return {}
+    bound = 1 if fi.cls is not None and "staticmethod" not in [getattr(d, "id", getattr(d, "attr", None)) for d in fi.node.decorator_list] else 0
+    for m in ctx.repo.modules.values():
+        for c in ast.walk(m.tree):
+            if not isinstance(c, ast.Call):
+                continue
+            nm = c.func.attr if isinstance(c.func, ast.Attribute) else c.func.id if isinstance(c.func, ast.Name) else None
+            if nm != fi.name and not (fi.name == "__init__" and fi.cls is not None and nm == fi.cls.name):
+                continue
+            if any(isinstance(x, ast.Starred) for x in c.args) or any(k.arg is None for k in c.keywords):
+                return {}
+            for k in c.keywords:
+                cands.pop(k.arg, None)
+            # positional arguments: as a method call the receiver takes the first parameter; as Class.method(obj, ...) it is passed
+            for n in list(cands):
+                if n in pos and len(c.args) > pos.index(n) - bound:
+                    cands.pop(n, None)
+    return cands
+
+
+def fold_term(t):
+    """Constant-fold `is` / `is not` / `not` / phi on constants after a substitution."""
+    from sa.terms import phi as _phi
+    if not isinstance(t, App):
+        return t
+    args = [fold_term(x) for x in t.args]
+    if t.op in ("is", "is not") and len(args) == 2 and all(isinstance(x, Const) for x in args) and (args[0].v is None or args[1].v is None):
+        same = args[0].v is args[1].v
+        return Const(same if t.op == "is" else not same)
+    if t.op == "not" and len(args) == 1 and isinstance(args[0], Const):
+        return Const(not args[0].v)
+    if t.op == "phi" and len(args) == 3:
+        return _phi(args[0], args[1], args[2], t.node)
+    if t.op == "eff:if" and len(args) == 3 and isinstance(args[0], Const):
+        return App("eff:seq", tuple((args[1] if args[0].v else args[2]).args), t.node)
+    return App(t.op, args, t.node)
+
+
+def specialise_outcome(ctx, fi, o):
+    """The outcome with the parameters nobody sets replaced by their defaults (see unset_optional_params)."""
+    from sa.terms import substitute
+    unset = unset_optional_params(ctx, fi)
+    if not unset:
+        return o, {}
+    mp = {Sym("param:" + n): Const(v) for n, v in unset.items()}
+    f = lambda t: fold_term(substitute(t, mp)) if t is not None else None
+    effs = []
+    for e in o.effects:
+        e2 = f(e)
+        if isinstance(e2, App) and e2.op == "eff:seq":
+            effs.extend(e2.args)
+        else:
+            effs.append(e2)
+    conds = [c for c in (f(c) for c in o.conds) if not (isinstance(c, Const) and c.v)]
+    return type(o)(o.kind, f(o.value), conds, effs, o.node, o.heap, o.env), unset
